@@ -393,6 +393,11 @@ def check(chk, fx, rule, name):
         chk.incomplete("%s: %s not found / not instantiated" % (rule, g["function"]))
     f = fns[0]
     ordered, fwd = pairs(f)
+    from .canon import best_renaming, rename_text
+    ref_labels = {x for a, b, _ in g["pairs"] for x in (a, b)}
+    mp = best_renaming(ref_labels, {x for ab in fwd for x in ab})
+    if mp:
+        fwd = {(rename_text(mp, a), rename_text(mp, b)): k for (a, b), k in fwd.items()}
     labels = set()
     for a, b in fwd:
         labels.add(a)
@@ -423,7 +428,11 @@ def _short(a, b):
 
 
 def _shared(f, a, b):
+    import re as _re
+    strip_names = lambda t: _re.sub(r"\?v\d+", "?v", t)
+    a, b = strip_names(a), strip_names(b)
     for ops in operations(f):
+        ops = [(strip_names(o[0]), o[1], o[2]) for o in ops]
         da = [o for o in ops if o[0] == a]
         db = [o for o in ops if o[0] == b]
         if da and db:
